@@ -53,6 +53,7 @@ const (
 	BTPSplitEnd       = 1 << 5
 	BTPHasGarbage     = 1 << 6
 	BTPIncompleteSplit = 1 << 7
+	BTPHasFullXid     = 1 << 8
 )
 
 // Hash constants
@@ -65,6 +66,12 @@ const (
 	LHBucket   = 1 << 1
 	LHBitmap   = 1 << 2
 	LHMeta     = 1 << 3
+	
+	// Hash page state bits (same flag word)
+	LHBucketBeingPopulated   = 1 << 4
+	LHBucketBeingSplit       = 1 << 5
+	LHBucketNeedsSplitCleanup = 1 << 6
+	LHPageHasDeadTuples      = 1 << 7
 )
 
 // GiST constants
@@ -107,6 +114,9 @@ const (
 	BRINPageTypeMeta    = 0xF091
 	BRINPageTypeRevmap  = 0xF092
 	BRINPageTypeRegular = 0xF093
+	
+	// BRIN flags
+	BRINEvacuatePage = 1 << 0
 )
 
 // IndexPageInfo contains parsed index page information
@@ -368,8 +378,17 @@ func parseBTreePageSpecial(info *IndexPageInfo, special []byte) {
 	if info.Flags&BTPHalfDead != 0 {
 		info.FlagStrings = append(info.FlagStrings, "HALF_DEAD")
 	}
+	if info.Flags&BTPSplitEnd != 0 {
+		info.FlagStrings = append(info.FlagStrings, "SPLIT_END")
+	}
 	if info.Flags&BTPHasGarbage != 0 {
 		info.FlagStrings = append(info.FlagStrings, "HAS_GARBAGE")
+	}
+	if info.Flags&BTPIncompleteSplit != 0 {
+		info.FlagStrings = append(info.FlagStrings, "INCOMPLETE_SPLIT")
+	}
+	if info.Flags&BTPHasFullXid != 0 {
+		info.FlagStrings = append(info.FlagStrings, "HAS_FULLXID")
 	}
 }
 
@@ -399,6 +418,18 @@ func parseHashPageSpecial(info *IndexPageInfo, special []byte) {
 	if info.Flags&LHMeta != 0 {
 		info.FlagStrings = append(info.FlagStrings, "META")
 	}
+	if info.Flags&LHBucketBeingPopulated != 0 {
+		info.FlagStrings = append(info.FlagStrings, "BUCKET_BEING_POPULATED")
+	}
+	if info.Flags&LHBucketBeingSplit != 0 {
+		info.FlagStrings = append(info.FlagStrings, "BUCKET_BEING_SPLIT")
+	}
+	if info.Flags&LHBucketNeedsSplitCleanup != 0 {
+		info.FlagStrings = append(info.FlagStrings, "BUCKET_NEEDS_SPLIT_CLEANUP")
+	}
+	if info.Flags&LHPageHasDeadTuples != 0 {
+		info.FlagStrings = append(info.FlagStrings, "PAGE_HAS_DEAD_TUPLES")
+	}
 }
 
 // parseGiSTPageSpecial parses GiST index special section
@@ -425,6 +456,9 @@ func parseGiSTPageSpecial(info *IndexPageInfo, special []byte) {
 	}
 	if info.Flags&FFollowRight != 0 {
 		info.FlagStrings = append(info.FlagStrings, "FOLLOW_RIGHT")
+	}
+	if info.Flags&FHasGarbage != 0 {
+		info.FlagStrings = append(info.FlagStrings, "HAS_GARBAGE")
 	}
 }
 
@@ -457,6 +491,12 @@ func parseGINPageSpecial(info *IndexPageInfo, special []byte) {
 	}
 	if info.Flags&GINList != 0 {
 		info.FlagStrings = append(info.FlagStrings, "LIST")
+	}
+	if info.Flags&GINListFullrow != 0 {
+		info.FlagStrings = append(info.FlagStrings, "LIST_FULLROW")
+	}
+	if info.Flags&GINIncompleteSplit != 0 {
+		info.FlagStrings = append(info.FlagStrings, "INCOMPLETE_SPLIT")
 	}
 	if info.Flags&GINCompressed != 0 {
 		info.FlagStrings = append(info.FlagStrings, "COMPRESSED")
@@ -498,6 +538,10 @@ func parseBRINPageSpecial(info *IndexPageInfo, special []byte) {
 	
 	info.Flags = binary.LittleEndian.Uint16(special[4:6])
 	info.IsMeta = binary.LittleEndian.Uint16(special[6:8]) == BRINPageTypeMeta
+	
+	if info.Flags&BRINEvacuatePage != 0 {
+		info.FlagStrings = append(info.FlagStrings, "EVACUATE_PAGE")
+	}
 }
 
 // parseBTreeMeta parses BTree metapage
